@@ -207,6 +207,26 @@ def snapshot_name(f: Func) -> str:
     return "pool_stats"
 
 
+def stmt_of(n: ast.AST) -> ast.stmt:
+    while not isinstance(n, ast.stmt):
+        n = parent(n)
+    return n
+
+
+def copy_closure(f: Func, v: str) -> Set[str]:
+    """v and the names bound by plain copies `w = v` (transitively)"""
+    names = {v}
+    grew = True
+    while grew:
+        grew = False
+        for n in own_nodes(f.node):
+            if isinstance(n, ast.Assign) and len(n.targets) == 1 and isinstance(n.targets[0], ast.Name) and isinstance(n.value, ast.Name) \
+                    and n.value.id in names and n.targets[0].id not in names:
+                names.add(n.targets[0].id)
+                grew = True
+    return names
+
+
 def ob_assignments_returned(ctx, num, key: str, label: str):
     """Every Assignment a scheduler constructs is handed to the executor: the constructor already moved the operators to ASSIGNED, so an
     assignment that is dropped on the way to the returned list leaves its operators assigned to nothing, for ever.
@@ -261,6 +281,45 @@ def ob_assignments_returned(ctx, num, key: str, label: str):
             v = p_.targets[0].id
             apps = [a for a in calls_named(f, "append") if isinstance(a.func, ast.Attribute) and isinstance(a.func.value, ast.Name) and len(a.args) == 1 and norm.is_name(a.args[0], v)]
             ok, why = False, f"`{v}` is never appended to a list"
+            # the object may travel through plain copies (`w = v`, e.g. the result variable of a looked-through helper) before it is appended:
+            # then the rule is the path form — from the construction, no feasible path reaches the exit, the construction again or a re-binding
+            # of one of the names without passing an append of one of them
+            names, copies = {v}, []
+            grew = True
+            while grew:
+                grew = False
+                for n in own_nodes(f.node):
+                    if isinstance(n, ast.Assign) and len(n.targets) == 1 and isinstance(n.targets[0], ast.Name) and isinstance(n.value, ast.Name) \
+                            and n.value.id in names and n.targets[0].id not in names:
+                        names.add(n.targets[0].id)
+                        copies.append(n)
+                        grew = True
+            if copies:
+                al_apps = [a for a in calls_named(f, "append") if isinstance(a.func, ast.Attribute) and isinstance(a.func.value, ast.Name) and len(a.args) == 1
+                           and isinstance(a.args[0], ast.Name) and a.args[0].id in names]
+                through = {g.node_of(stmt_of(a)).id for a in al_apps}
+                stops = {g.exit.id, g.node_of(p_).id}
+                for n in own_nodes(f.node):
+                    if isinstance(n, ast.Name) and isinstance(n.ctx, (ast.Store, ast.Del)) and n.id in names:
+                        st_ = stmt_of(n)
+                        if st_ is not p_ and st_ not in copies:
+                            stops.add(g.node_of(st_).id)
+                esc = g.escapes(p_, through, stops)
+                if esc is None and al_apps:
+                    IN = g.facts(blocked=set(through), start=g.node_of(p_).id)
+                    ok, why = True, ""
+                    for a in al_apps:
+                        if IN[g.node_of(stmt_of(a)).id] is None:
+                            continue
+                        ok1, why1 = feeds(a.func.value.id, stmt_of(a))
+                        why = f"`{norm.U(a)}` on every path from the construction (through {sorted(names)}); " + why1
+                        if not ok1:
+                            ok = False
+                            break
+                    apps = []
+                elif al_apps:
+                    why = f"a path from the construction reaches L{g.nodes[esc].line} without an append of {sorted(names)}"
+                    apps = []
             for a in apps:
                 sa_ = a
                 while not isinstance(sa_, ast.stmt):
